@@ -162,7 +162,9 @@ def coq_stage(prop, tier):
         info['ok'] = False
         info['problems'].append('no theorems found in Props/%s.v' % prop)
         return info
-    ok, log, cmds = build.coq_make(['theories/Props/%s.vo' % prop])
+    import glob as _glob
+    exec_targets = sorted('theories/Exec/' + os.path.basename(p)[:-2] + '.vo' for p in _glob.glob(os.path.join(build.COQ, 'theories', 'Exec', '*.v')))
+    ok, log, cmds = build.coq_make(['theories/Props/%s.vo' % prop] + exec_targets)
     info['cmds'] += cmds
     if not ok:
         info['ok'] = False
@@ -331,9 +333,10 @@ def main(argv):
     coq = coq_stage(prop, tier)
     # ---- 2. builds
     stages, infra = [], []
+    model_broken = []
     ok, log, cmds = build.build_modeldrv()
     if not ok:
-        infra.append('model driver build failed: ' + log[-800:])
+        model_broken.append('model driver build failed: ' + log[-800:])
     bins = {}
     for profile in spec.get('profiles', ['debug']):
         b, log = build.build_harness(profile)
@@ -384,7 +387,7 @@ def main(argv):
     for s in stages:
         broken += ['%s: %s' % (s.name, d) for _, d in s.disagree[:3]]
         broken += ['%s: %s' % (s.name, e) for e in s.errors[:3]]
-    broken += infra
+    broken += infra + model_broken
     extra_cov = {}
     if broken and not violations:
         # the proof or the correspondence no longer checks: search the implementation for a failing input
